@@ -1,6 +1,8 @@
 /* Simulated kernel: every system call the cjet daemon makes lands here (simk_<name>). */
 #define _GNU_SOURCE
+#include <dlfcn.h>
 #include <errno.h>
+#include <execinfo.h>
 #include <fcntl.h>
 #include <netinet/in.h>
 #include <pthread.h>
@@ -115,9 +117,11 @@ struct failspec {
 static struct failspec fails[MAXFAIL];
 
 /* heap */
-static long heap_allocs, heap_live, heap_fail_nth;
+static long heap_allocs, heap_live, heap_fail_nth, heap_fail_gap, heap_failures;
 static uint8_t fill_byte = 0xAA;
 static void *heap_fail_ra;
+static void *heap_fail_frames[14];
+static int heap_fail_nframes;
 static char heap_fail_site_buf[128];
 
 /* file system */
@@ -1334,8 +1338,18 @@ void sim_seed_random(uint64_t seed)
 void sim_heap_fail_nth(long nth)
 {
 	heap_fail_nth = nth;
+	heap_fail_gap = 0;
+	heap_failures = 0;
 	heap_fail_ra = NULL;
 	heap_fail_site_buf[0] = 0;
+}
+void sim_heap_fail_second(long gap)
+{
+	heap_fail_gap = gap;
+}
+long sim_heap_failures(void)
+{
+	return heap_failures;
 }
 long sim_heap_allocs(void)
 {
@@ -1370,7 +1384,12 @@ static bool heap_should_fail(void *ra)
 	}
 	if (heap_fail_nth > 0) {
 		if (--heap_fail_nth == 0) {
-			heap_fail_ra = ra;
+			if (heap_failures++ == 0) {
+				heap_fail_ra = ra; /* the site of the FIRST failure names the finding */
+				heap_fail_nframes = backtrace(heap_fail_frames, 14);
+			}
+			heap_fail_nth = heap_fail_gap; /* a second failure that many allocations later (0 = none) */
+			heap_fail_gap = 0;
 			return true;
 		}
 	}
@@ -1431,8 +1450,38 @@ const char *sim_heap_fail_site(void)
 		return "";
 	}
 	if (heap_fail_site_buf[0] == 0) {
-		extern void sim_symbolize(void *addr, char *out, size_t outlen);
-		sim_symbolize(heap_fail_ra, heap_fail_site_buf, sizeof(heap_fail_site_buf));
+		/* name of the first function on the failing allocation's call stack that is neither the harness, the daemon's
+		 * allocator wrapper nor the JSON library: that is the call site whose unwinding is being tested */
+		Dl_info info;
+		uintptr_t base = 0;
+		if (dladdr((void *)(uintptr_t)sim_heap_fail_site, &info) != 0 && info.dli_fbase != NULL) {
+			base = (uintptr_t)info.dli_fbase;
+		}
+		char exe[256], cmd[900];
+		ssize_t n = readlink("/proc/self/exe", exe, sizeof(exe) - 1);
+		snprintf(heap_fail_site_buf, sizeof(heap_fail_site_buf), "?");
+		if (n > 0) {
+			exe[n] = 0;
+			int len = snprintf(cmd, sizeof(cmd), "addr2line -f -e %s", exe);
+			for (int i = 0; i < heap_fail_nframes; i++) {
+				uintptr_t a = (uintptr_t)heap_fail_frames[i] - 1;
+				len += snprintf(cmd + len, sizeof(cmd) - (size_t)len, " 0x%lx", (unsigned long)(a >= base ? a - base : a));
+			}
+			snprintf(cmd + len, sizeof(cmd) - (size_t)len, " 2>/dev/null");
+			FILE *p = popen(cmd, "r");
+			if (p != NULL) {
+				char fn[200], file[300];
+				while (fgets(fn, sizeof(fn), p) != NULL && fgets(file, sizeof(file), p) != NULL) {
+					fn[strcspn(fn, "\r\n")] = 0;
+					if (strstr(file, "/simk/") != NULL || strstr(file, "alloc.c") != NULL || strstr(file, "cJSON.c") != NULL || strstr(file, "jet_string.c") != NULL || strstr(file, "zlib/") != NULL || fn[0] == '?') {
+						continue;
+					}
+					snprintf(heap_fail_site_buf, sizeof(heap_fail_site_buf), "%s", fn);
+					break;
+				}
+				pclose(p);
+			}
+		}
 	}
 	return heap_fail_site_buf;
 }
